@@ -16,10 +16,11 @@ import (
 	"encoding/asn1"
 	"encoding/json"
 	"fmt"
-	"math"
 	"github.com/cloudflare/circl/abe/cpabe/tkn20"
 	"github.com/cloudflare/circl/pki"
+	"math"
 	"os"
+	"strings"
 	"time"
 
 	"circlsim/core"
@@ -494,6 +495,19 @@ var famNames []string
 var famWeights []int
 
 func reg(f famDef, w int) {
+	// experiments only (no registered command sets it): restrict the families to those whose
+	// name starts with one of the comma-separated prefixes
+	if only := os.Getenv("VERIF_FAMS"); only != "" {
+		keep := false
+		for _, pre := range strings.Split(only, ",") {
+			if strings.HasPrefix(f.name, pre) {
+				keep = true
+			}
+		}
+		if !keep {
+			return
+		}
+	}
 	fams[f.name] = f
 	famNames = append(famNames, f.name)
 	if f.slow {
@@ -595,7 +609,13 @@ func directed(tier string) []any {
 		}
 		last := f.kinds[len(f.kinds)-1]
 		pair := func(k string, seed uint64, sw SwitchSpec) {
-			out = append(out, &Plan{Fam: n, Seed: seed, Tasks: [][]TaskOp{{{K: k}}, {{K: k}, {K: last}}}, Switches: []SwitchSpec{sw}})
+			second := []TaskOp{{K: k}, {K: last}}
+			if race {
+				// ThreadSanitizer drops a report when the earlier access has left the other
+				// goroutine's bounded history: nothing long runs between the two calls
+				second = second[:1]
+			}
+			out = append(out, &Plan{Fam: n, Seed: seed, Tasks: [][]TaskOp{{{K: k}}, second}, Switches: []SwitchSpec{sw}})
 		}
 		// (a) every op kind against itself: two tasks make the same read-only call on the shared
 		// objects (the race oracle needs no particular pre-emption point for these)
@@ -854,6 +874,6 @@ func main() {
 		Isolate:     !race,
 		Runs:        runs,
 		WallCap:     map[string]time.Duration{"quick": 80 * time.Second, "thorough": 12 * time.Minute},
-		ChildEnv:    []string{"GORACE=halt_on_error=1 exitcode=66"},
+		ChildEnv:    []string{"GORACE=halt_on_error=1 exitcode=66 history_size=7"},
 	})
 }
